@@ -20,6 +20,8 @@ C11_SHAPES = ['c11_shape_or', 'c11_shape_and', 'c11_shape_eq', 'c11_shape_ne', '
               'c11_shape_gt', 'c11_shape_ge', 'c11_prec_or_and', 'c11_prec_and_or', 'c11_prec_and_eq', 'c11_prec_eq_lt', 'c11_prec_lt_eq',
               'c11_assoc_lt_lt', 'c11_assoc_eq_ne', 'c11_assoc_or_or', 'c11_shape_lt_space_eq_is_not_le']
 
+C11_GATING = ['c11_gating_' + d + '_bounded' for d in ('define', 'undef', 'include', 'pragma', 'unknown', 'ifdef', 'if', 'elif', 'else', 'endif')]
+
 ALL_V_UNITS = ['cond_chain', 'cond_file', 'cond_parser', 'bindings', 'lexer_digits', 'lexer_float', 'token_stream', 'source_manager', 'layout',
                'hlsl_bindings', 'hlsl_analyse', 'hlsl_expr', 'hlsl_literal', 'msl_literal', 'evaluator']
 
@@ -81,6 +83,9 @@ PROPS = {
             # precedence / associativity of the condition parser: one concrete token shape each, operands fully symbolic
             {'module': 'preprocess/condition_parser.rs',
              'harnesses': [(h, 'bounded:one token shape, u64 operands complete') for h in C11_SHAPES], 'tier': 'quick'},
+            # directive gating / routing in preprocess_command: one directive on a symbolic chain of depth <= 2, heavy callees recorded
+            {'module': 'preprocess/preprocess.rs',
+             'harnesses': [(h, 'bounded:one directive shape, chain depth <= 2') for h in C11_GATING], 'tier': 'quick'},
             # discharges the assumed is_active contract on the real function and survives representation changes (21 min: thorough only)
             {'module': 'preprocess/preprocess.rs',
              'harnesses': [('c11_condition_chain_sequence_bounded', 'bounded:operation sequences of length 5')],
